@@ -8,6 +8,7 @@ import (
 	"go/constant"
 	"go/token"
 	"go/types"
+	"regexp"
 	"sort"
 	"strings"
 
@@ -122,6 +123,8 @@ type FnCtx struct {
 	unsupported bool
 	loopOrd map[*ssa.BasicBlock]int
 	usedContracts map[string]bool
+	anchors map[*ssa.CallCommon]string
+	atSorts map[string]string
 	loopDecs map[*loopInfo]string
 }
 
@@ -206,8 +209,23 @@ func (fc *FnCtx) globalKey(g *ssa.Global) string {
 func (fc *FnCtx) ghostKey(name string) string {
 	g := fc.eng.ghosts[name]
 	key := "X|" + name
-	fc.heapVarOf(key, g.Sort, "ghost", nil)
+	fc.heapVarOf(key, fc.ghostSort(g.Sort), "ghost", nil)
 	return key
+}
+
+var ghostTypeRe = regexp.MustCompile(`T\(([A-Za-z0-9_]+)\.([A-Za-z0-9_]+)\)`)
+
+// ghostSort resolves T(pkg.Type) inside a ghost variable's sort to the SMT sort of that Go type.
+func (fc *FnCtx) ghostSort(s string) string {
+	return ghostTypeRe.ReplaceAllStringFunc(s, func(m string) string {
+		sm := ghostTypeRe.FindStringSubmatch(m)
+		t := fc.eng.lookupNamedType(nil, sm[1], sm[2])
+		if t == nil {
+			fc.errorf("ghost sort: unknown type %s.%s", sm[1], sm[2])
+			return "Int"
+		}
+		return fc.sorts.SortOf(t)
+	})
 }
 
 // ---- obligations ----
@@ -216,8 +234,49 @@ func (fc *FnCtx) oblige(st *State, kind, goal string, pos token.Pos, detail stri
 	if goal == "true" || st.pc == "false" {
 		return
 	}
+	// a conjunction is discharged conjunct by conjunct (smaller queries, named parts)
+	if strings.HasPrefix(goal, "(and ") && !strings.HasPrefix(kind, "cover") {
+		parts := splitSexprs(goal[5 : len(goal)-1])
+		if len(parts) > 1 && len(parts) <= 16 {
+			for i, p := range parts {
+				fc.oblige(st, fmt.Sprintf("%s.c%d", kind, i), p, pos, fmt.Sprintf("%s [conjunct %d]", detail, i))
+			}
+			return
+		}
+	}
+	// a universally quantified goal is proved for fresh constants (forall-introduction): the range
+	// hypothesis moves into the path condition, where its ground terms are visible to E-matching
+	if strings.HasPrefix(goal, "(forall ((") && !strings.HasPrefix(kind, "cover") {
+		if decls, body, ok := splitQuant(goal); ok {
+			skolemOK := true
+			for _, d := range decls {
+				if !strings.Contains(d[0], "!b") {
+					skolemOK = false // only engine-generated (unique) binder names are reused as constants
+				}
+			}
+			if skolemOK {
+				for _, d := range decls {
+					fc.sc.cmds = append(fc.sc.cmds, fmt.Sprintf("(declare-const %s %s)", d[0], d[1]))
+				}
+				body = stripPattern(body)
+				st2 := st
+				if strings.HasPrefix(body, "(=> ") {
+					ps := splitSexprs(body[4 : len(body)-1])
+					if len(ps) == 2 {
+						st2 = st.clone()
+						fc.assume(st2, ps[0])
+						body = ps[1]
+					}
+				}
+				fc.oblige(st2, kind, body, pos, detail)
+				return
+			}
+		}
+	}
+	extra := fc.mentions(goal)
 	fc.kindCount[kind]++
 	o := &Obligation{
+		extra:  extra,
 		Name:   fmt.Sprintf("%s/%s#%d", fc.name, kind, fc.kindCount[kind]),
 		Func:   fc.name,
 		Kind:   kind,
@@ -232,6 +291,100 @@ func (fc *FnCtx) oblige(st *State, kind, goal string, pos token.Pos, detail stri
 		o.Props = fc.con.Props
 	}
 	fc.obs = append(fc.obs, o)
+}
+
+// splitQuant parses "(forall ((x S) (y T)) body)".
+func splitQuant(q string) (decls [][2]string, body string, ok bool) {
+	i := strings.Index(q, "((")
+	if i < 0 {
+		return nil, "", false
+	}
+	j := matchParen(q, i)
+	if j < 0 {
+		return nil, "", false
+	}
+	for _, d := range splitSexprs(q[i+1 : j]) {
+		d = strings.TrimSpace(d)
+		if !strings.HasPrefix(d, "(") {
+			return nil, "", false
+		}
+		n, so := splitWord(d[1 : len(d)-1])
+		decls = append(decls, [2]string{n, so})
+	}
+	body = strings.TrimSpace(q[j+1 : len(q)-1])
+	return decls, body, true
+}
+
+func stripPattern(b string) string {
+	if strings.HasPrefix(b, "(! ") {
+		ps := splitSexprs(b[3 : len(b)-1])
+		if len(ps) > 0 {
+			return ps[0]
+		}
+	}
+	return b
+}
+
+// mentions: element-accessor terms of the goal that contain no bound variable are asserted to the
+// solver through an uninterpreted marker, so that they exist as ground terms (a goal's existential
+// otherwise hides them inside a quantifier body, where E-matching cannot see them).
+func (fc *FnCtx) mentions(goal string) []string {
+	if !strings.Contains(goal, "(exists ") && !strings.Contains(goal, "(forall ") {
+		return nil
+	}
+	bound := map[string]bool{}
+	rest := goal
+	for {
+		i := strings.Index(rest, "(forall ((")
+		k := strings.Index(rest, "(exists ((")
+		if i < 0 || (k >= 0 && k < i) {
+			i = k
+		}
+		if i < 0 {
+			break
+		}
+		j := matchParen(rest, i+8)
+		if j < 0 {
+			break
+		}
+		for _, d := range splitSexprs(rest[i+9 : j]) {
+			n, _ := splitWord(strings.Trim(d, "()"))
+			bound[n] = true
+		}
+		rest = rest[j:]
+	}
+	seen := map[string]bool{}
+	var out []string
+	for at, so := range fc.atSorts {
+		probe := "(" + at + " "
+		r := goal
+		for {
+			i := strings.Index(r, probe)
+			if i < 0 {
+				break
+			}
+			j := matchParen(r, i)
+			if j < 0 {
+				break
+			}
+			t := r[i : j+1]
+			r = r[i+1:]
+			ground := true
+			for b := range bound {
+				if strings.Contains(t, b+" ") || strings.Contains(t, b+")") {
+					ground = false
+				}
+			}
+			if ground && !seen[t] {
+				seen[t] = true
+				m := "mention_" + sanitize(so)
+				fc.sc.Header("mention:"+m, fmt.Sprintf("(declare-fun %s (%s) Bool)", m, so))
+				out = append(out, app(m, t))
+			}
+		}
+	}
+	sort.Strings(out)
+	return out
 }
 
 func (fc *FnCtx) assume(st *State, cond string) {
@@ -415,7 +568,7 @@ func (fc *FnCtx) rootLoad(st *State, a *Addr) string {
 		return app("select", fc.heapGet(st, fc.boxKey(a.Elem)), a.Ref)
 	case aElem:
 		if a.SliceT != "" {
-			return app(fc.atFn(a.Elem), fc.heapGet(st, fc.elemKey(a.Elem)), a.SliceT, a.IdxI)
+			return app(fc.atFn(a.Elem), fc.heapGet(st, fc.elemKey(a.Elem)), app("arr", a.SliceT), app("off", a.SliceT), a.IdxI)
 		}
 		return app("select", app("select", fc.heapGet(st, fc.elemKey(a.Elem)), a.Arr), a.Idx)
 	case aGlobal:
@@ -429,8 +582,57 @@ func (fc *FnCtx) rootLoad(st *State, a *Addr) string {
 func (fc *FnCtx) atFn(elem types.Type) string {
 	es := fc.sorts.SortOf(elem)
 	name := "at_" + sanitize(es)
-	fc.sc.Header("at:"+name, fmt.Sprintf("(declare-fun %s ((Array Int (Array Int %s)) Slice Int) %s)\n(assert (forall ((A (Array Int (Array Int %s))) (s Slice) (i Int)) (! (= (%s A s i) (select (select A (arr s)) (+ (off s) i))) :pattern ((%s A s i)))))", name, es, es, es, name, name))
+	if fc.atSorts == nil {
+		fc.atSorts = map[string]string{}
+	}
+	fc.atSorts[name] = es
+	fc.sc.Header("at:"+name, fmt.Sprintf("(declare-fun %s ((Array Int (Array Int %s)) Int Int Int) %s)\n(assert (forall ((A (Array Int (Array Int %s))) (a Int) (o Int) (i Int)) (! (= (%s A a o i) (select (select A a) (+ o i))) :pattern ((%s A a o i)))))", name, es, es, es, name, name))
 	return name
+}
+
+// bridge links the element accessor over a new element heap to the accessor over the heap it was
+// derived from (a valid consequence of the accessor's definition, stated so that quantified facts
+// about the old heap are triggered by terms over the new one).
+func (fc *FnCtx) bridge(elem types.Type, newHeap string, body func(a, o, i string) string) {
+	if !isAtom(newHeap) {
+		return
+	}
+	at := fc.atFn(elem)
+	b := body("a!q", "o!q", "i!q")
+	// also trigger on accessor terms over the heaps the new one was derived from, so that facts
+	// about an element of the old heap carry over to the new one
+	pats := fmt.Sprintf(":pattern ((%s %s a!q o!q i!q))", at, newHeap)
+	seen := map[string]bool{}
+	rest := b
+	probe := "(" + at + " "
+	for {
+		j := strings.Index(rest, probe)
+		if j < 0 {
+			break
+		}
+		rest = rest[j+len(probe):]
+		e := strings.IndexByte(rest, ' ')
+		if e < 0 {
+			break
+		}
+		if strings.HasPrefix(rest[e:], " a!q o!q i!q)") && !seen[rest[:e]] && isAtom(rest[:e]) {
+			seen[rest[:e]] = true
+			pats += fmt.Sprintf(" :pattern ((%s %s a!q o!q i!q))", at, rest[:e])
+		}
+	}
+	fc.sc.cmds = append(fc.sc.cmds, fmt.Sprintf("(assert (forall ((a!q Int) (o!q Int) (i!q Int)) (! (= (%s %s a!q o!q i!q) %s) %s)))",
+		at, newHeap, b, pats))
+}
+
+// setArr replaces the whole content of array id x by c in element heap k.
+func (fc *FnCtx) setArr(st *State, elem types.Type, x, c string) {
+	k := fc.elemKey(elem)
+	h := fc.heapGet(st, k)
+	at := fc.atFn(elem)
+	st.heap[k] = fc.sc.DefineConst(fc.hv[k].name, fc.hv[k].sort, app("store", h, x, c))
+	fc.bridge(elem, st.heap[k], func(a, o, i string) string {
+		return ite(eq(a, x), app("select", c, app("+", o, i)), app(at, h, a, o, i))
+	})
 }
 
 func (fc *FnCtx) rootStore(st *State, a *Addr, v string) {
@@ -446,7 +648,12 @@ func (fc *FnCtx) rootStore(st *State, a *Addr, v string) {
 	case aElem:
 		k := fc.elemKey(a.Elem)
 		h := fc.heapGet(st, k)
-		st.heap[k] = fc.sc.Define(fc.hv[k].name, fc.hv[k].sort, app("store", h, a.Arr, app("store", app("select", h, a.Arr), a.Idx, v)))
+		st.heap[k] = fc.sc.DefineConst(fc.hv[k].name, fc.hv[k].sort, app("store", h, a.Arr, app("store", app("select", h, a.Arr), a.Idx, v)))
+		at := fc.atFn(a.Elem)
+		arrT, idxT := a.Arr, a.Idx
+		fc.bridge(a.Elem, st.heap[k], func(aa, o, i string) string {
+			return ite(and(eq(aa, arrT), eq(app("+", o, i), idxT)), v, app(at, h, aa, o, i))
+		})
 	case aGlobal:
 		st.heap[fc.globalKey(a.Global)] = v
 	}
@@ -587,6 +794,7 @@ func (fc *FnCtx) merge(ins []inEdge) *State {
 		pcs = append(pcs, e.st.pc)
 	}
 	res.pc = fc.sc.Define("pc", "Bool", or(pcs...))
+	asConst := false
 	mergeTerm := func(get func(*State) string, sortName, prefix string) string {
 		t := get(ins[len(ins)-1].st)
 		same := true
@@ -600,6 +808,9 @@ func (fc *FnCtx) merge(ins []inEdge) *State {
 		}
 		for i := len(ins) - 2; i >= 0; i-- {
 			t = ite(ins[i].st.pc, get(ins[i].st), t)
+		}
+		if asConst {
+			return fc.sc.DefineConst(prefix, sortName, t)
 		}
 		return fc.sc.Define(prefix, sortName, t)
 	}
@@ -638,7 +849,27 @@ func (fc *FnCtx) merge(ins []inEdge) *State {
 	sort.Strings(hk)
 	for _, k := range hk {
 		k := k
+		asConst = fc.hv[k].kind == "elem"
 		res.heap[k] = mergeTerm(func(s *State) string { return fc.heapGet(s, k) }, fc.hv[k].sort, fc.hv[k].name)
+		asConst = false
+		if h := fc.hv[k]; h.kind == "elem" {
+			differ := false
+			for _, e := range ins {
+				if fc.heapGet(e.st, k) != res.heap[k] {
+					differ = true
+				}
+			}
+			if differ {
+				at := fc.atFn(h.ty)
+				fc.bridge(h.ty, res.heap[k], func(a, o, i string) string {
+					t := app(at, fc.heapGet(ins[len(ins)-1].st, k), a, o, i)
+					for j := len(ins) - 2; j >= 0; j-- {
+						t = ite(ins[j].st.pc, app(at, fc.heapGet(ins[j].st, k), a, o, i), t)
+					}
+					return t
+				})
+			}
+		}
 	}
 	res.alloc = mergeTerm(func(s *State) string { return s.alloc }, "Int", "alloc")
 	// defers and locksets must agree
